@@ -51,6 +51,11 @@ func new(input string) *Lexer {
 
 // ReadChar advances the lexer to the next character in the input.
 func (l *Lexer) ReadChar() {
+	// Already past the last character: stay at the end of the input
+	if l.readPosition > len(l.input) {
+		return
+	}
+
 	// If the previous character was a newline, reset column
 	if l.CurrentChar == '\n' {
 		l.Line++
